@@ -11,13 +11,13 @@ LEVEL = 'model_checking'
 
 # (argument handed to the API, texts it selects; None = all)
 SELS = ((None, None), ('red', ('31',)), (['red', 'bold'], ('31', '1')), ('blue', ('34',)),
-        ('no_bold_faint', ('22',)), (('bold',), ('1',)))
+        ('no_bold_faint', ('22',)), (('bold',), ('1',)), (';', ()), ([''], ()), ([[]], ()))
 SIG3 = (SIGMA[0], SIGMA[1], SIGMA[2])          # red, blue, bold
 SIG2 = (SIGMA[0], SIGMA[1])                    # red, blue (conflicting pair)
 
 
 def h_remove(n: int, k: int, s1: int, r1: int, s2: int, r2: int, t2: bool, sel: int,
-             c: Optional[int], d: Optional[int], sigma=SIG3, sels=(0, 1, 2, 3, 4, 5), s3: int = 0, r3: int = 0):
+             c: Optional[int], d: Optional[int], sigma=SIG3, sels=(0, 1, 2, 3, 4, 5, 6, 7, 8), s3: int = 0, r3: int = 0):
     s = build2(n, k, s1, r1, s2, r2, t2, sigma, s3, r3, True)
     if s is None:
         return None
@@ -68,6 +68,43 @@ def h_remove(n: int, k: int, s1: int, r1: int, s2: int, r2: int, t2: bool, sel: 
     return True
 
 
+def h_remove3(n: int, s1: int, r1: int, s2: int, r2: int, s3: int, r3: int, sel: int, rr: int):
+    """Three builder steps over the conflicting pair (equal-valued instances included); the removal range is canonical."""
+    s = AnsiString(TEXT[:n])
+    from ref.view import b1_step
+    if b1_step(s, n, s1, r1, True, SIG2) is None:
+        return None
+    if b1_step(s, n, s2, r2, True, SIG2) is None:
+        return None
+    if b1_step(s, n, s3, r3, True, SIG2) is None:
+        return None
+    q = choose(sel, (0, 1, 3))
+    if q is None:
+        return None
+    rg = choose(rr, ranges(n))
+    if rg is None:
+        return None
+    arg, texts = SELS[q]
+    before = S(s, n)
+    s.remove_formatting(arg, rg[0], rg[1])
+    after = S(s, n)
+    for i in range(n):
+        if rg[0] <= i < rg[1]:
+            exp = [x for x in before[i] if texts is not None and x not in texts]
+        else:
+            exp = before[i]
+        if not term.same(after[i], exp):
+            return ('inside-wrong' if rg[0] <= i < rg[1] else 'outside-changed', i, before[i], after[i], exp)
+    cells, _, _ = term.interpret(str(s))
+    for i in range(n):
+        if cells[i][1] != term.red(after[i]):
+            return ('render-differs', i, str(s), after[i])
+    if any(len(set(x)) < len(x) for x in before):
+        cover('equal-instances')
+    cover('removed3')
+    return True
+
+
 def h_clear(n: int, k: int, s1: int, r1: int, s2: int, r2: int, t2: bool):
     s = build2(n, k, s1, r1, s2, r2, t2, SIG3)
     if s is None:
@@ -80,8 +117,8 @@ def h_clear(n: int, k: int, s1: int, r1: int, s2: int, r2: int, t2: bool):
 
 
 BOUNDS = {
-    'quick': 'receivers: 1 apply step n<=2 (6 selections) and 2 apply steps n=2 over (red, blue, bold) with 4 selections; 2 apply steps n=3 over the '
-             'conflicting pair (red, blue) with selections None / red; start/end ALL integers and None',
+    'quick': 'receivers: 1 apply step n<=2 (9 selections incl. three that scrub to nothing) and 2 apply steps n=2 over (red, blue, bold) with 4 selections; 2 apply steps n=3 over the '
+             'conflicting pair (red, blue) with selections None / red; start/end ALL integers and None; 3 apply steps n=3 over (red, blue) with canonical removal ranges',
     'thorough': '2 apply steps n=3 over (red, blue, bold) x 6 selections x topmost both; 2 steps n=4 and 3 steps n=3 over (red, blue) with None / red',
 }
 OUTSIDE = 'receivers needing more builder steps; selections outside the 6 listed; an empty settings list (not settled by the statement)'
@@ -103,6 +140,10 @@ def obligations(tier):
                     f['sels'] = (0, 1, 2, 3)
                 obs.append(Ob('remove/b2/n2/s%d/r%d/s%d' % (s1, r1, s2), h_remove, f, need=('nonempty',),
                               budget=900, bounds='n=2, 2 apply steps', kinds=KINDS))
+    for s1 in range(2):
+        for r1 in (2, 4, 5) if tier == 'quick' else range(6):
+            obs.append(Ob('remove3/n3/s%d/r%d' % (s1, r1), h_remove3, dict(n=3, s1=s1, r1=r1), need=('removed3', 'equal-instances'), budget=900,
+                          bounds='n=3, 3 apply steps over (red, blue) incl. equal-valued instances, canonical removal ranges, selections None/red/blue', kinds=KINDS))
     obs.append(Ob('clear/b2/n2', h_clear, dict(n=2, k=2), need=('cleared',), budget=300, bounds='n=2', kinds=KINDS))
     if tier == 'quick':
         for s1 in range(2):
